@@ -265,14 +265,14 @@ theorem triplet_attributes_ok_iff {α : Type} (g : Compass.Graph α) (v : Nat) (
     simp only [Except.ok.injEq, exists_eq_left']
     exact Compass.Graph.tripletAttrsGo_ok_iff g l r
 
-/-- … error arm: the error is that of `incident_triplet_ids`, or names a position, taken from one of its
-triplets, at which there is no record -/
+/-- … error arm: the error is that of `incident_triplet_ids`, or a `VertexNotFound` naming the first or third
+id of one of its triplets at which there is no vertex record.  (The `?` on `get_edge` inside
+`incident_triplet_attributes` is dead code: `incident_triplet_ids` has just read that record.) -/
 theorem triplet_attributes_error {α : Type} (g : Compass.Graph α) (v : Nat) (d : Direction) (x : NetErr)
     (h : g.incidentTripletAttributes v d = .error x) :
     g.incidentTripletIds v d = .error x ∨
     ∃ l, g.incidentTripletIds v d = .ok l ∧ ∃ t ∈ l,
       (x = .vertexNotFound t.1 ∧ g.vertices[t.1]? = none) ∨
-      (x = .edgeNotFound t.2.1 ∧ g.edges[t.2.1]? = none) ∨
       (x = .vertexNotFound t.2.2 ∧ g.vertices[t.2.2]? = none) := by
   unfold Compass.Graph.incidentTripletAttributes at h
   cases hl : g.incidentTripletIds v d with
@@ -282,7 +282,14 @@ theorem triplet_attributes_error {α : Type} (g : Compass.Graph α) (v : Nat) (d
     exact Or.inl (by rw [h])
   | ok l =>
     rw [hl] at h
-    exact Or.inr ⟨l, rfl, Compass.Graph.tripletAttrsGo_error g l x h⟩
+    obtain ⟨t, ht, hcase⟩ := Compass.Graph.tripletAttrsGo_error g l x h
+    refine Or.inr ⟨l, rfl, t, ht, ?_⟩
+    rcases hcase with h1 | h1 | h1
+    · exact Or.inl h1
+    · obtain ⟨ed, hed⟩ := Compass.Graph.tripletIdsGo_edges_exist g v d _ l hl t ht
+      rw [h1.2] at hed
+      cases hed
+    · exact Or.inr h1
 
 /-- on every network assembled from rows in the documented format (hence on every loaded network,
 `C15.loaded_graph_is_buildGraph`) the call never fails, has one entry per listed edge leaving `v`, in file
